@@ -112,6 +112,9 @@ def gen_case(rng, root, gpg, case_no=None):
     links = []
     names = loaded_names(pubkeys, keystore) + [stranger.keyid]
     nfiles = rng.randrange(1, 7)
+    expired_master_signs = bool(gpg and case_no is not None and desc.get("gpg_mode") == "expired")
+    if expired_master_signs:
+        nfiles = max(nfiles, 2)      # (an untouched link signed by the key that is past its validity period itself: it is stepped over)
     used_names = set()
     for fno in range(nfiles):
         signer = rng.choice(signers_all if rng.random() < 0.25 else signers)
@@ -122,12 +125,16 @@ def gen_case(rng, root, gpg, case_no=None):
             kid = signer.keyid
         else:
             kid = rng.choice(names)
+        if expired_master_signs and fno == 1:
+            signer, kid = m, m.keyid
         if kid[:8] in used_names:
             continue
         used_names.add(kid[:8])
         tamper = rng.choice(TAMPERS)
         if gpg and case_no is not None and fno == 0:
             tamper = ["content", "sig", "unsigned"][(case_no // len(gk)) % 3]
+        if expired_master_signs and fno == 1 and signer is m and kid == m.keyid:
+            tamper = None
         fmt = "metablock" if signer.kind == "gpg" else rng.choice(["metablock", "dsse"])
         if tamper == "other_family" and fmt == "dsse":
             tamper = "sig"
